@@ -15,6 +15,17 @@ class ElementComposite(Element):
 
     """
 
+    @staticmethod
+    def _wraps_several_fields(e) -> bool:
+        """Whether a chain of wrappers ends in a composite of several
+        fields."""
+        e = getattr(e, 'elem', None)
+        while e is not None:
+            if isinstance(e, ElementComposite):
+                return len(e.elems) > 1
+            e = getattr(e, 'elem', None)
+        return False
+
     def __init__(self, *elems: Element):
         # a composite among the components contributes its components (gbasis
         # takes the single field of each component), as in Element.__mul__
@@ -22,7 +33,7 @@ class ElementComposite(Element):
         for e in elems:
             flat += list(e.elems) if isinstance(e, ElementComposite) else [e]
         for e in flat:
-            if isinstance(getattr(e, 'elem', None), ElementComposite):
+            if self._wraps_several_fields(e):
                 # a wrapper (ElementDG) around a composite delivers several
                 # fields, too
                 raise NotImplementedError("A wrapped ElementComposite is "
